@@ -110,6 +110,12 @@ func runC09Visitor(c *Ctx) {
 			if st.invoke && found.Common().Args[0] != ssa.Value(fn.Params[1]) {
 				why = "the callback is not given the visited node"
 			}
+			// made in every iteration: the call is on every way round the loop (no `continue` before it)
+			for _, pr := range hdr.Preds {
+				if body[pr] && pr != found.Block() && !found.Block().Dominates(pr) {
+					why = "an iteration can end without the callback (a `continue` or a branch round the call): some elements are not visited, and which ones may depend on what was seen before"
+				}
+			}
 			// exits
 			for b := range body {
 				for _, s := range b.Succs {
